@@ -166,16 +166,11 @@ class SrtContext:
 
     LOGGER.debug("Check and process the last SRT paragraph.")
 
-    if self._paragraphs and self._paragraphs[-1].get_end() is None:
-      if self._paragraphs[-1].is_only_whitespace():
-        # if the last paragraph contains only whitespace, remove it
-        LOGGER.debug("Removing empty unbounded last paragraph.")
-        self._paragraphs.pop()
-
-      else:
+    for paragraph in self._paragraphs:
+      if paragraph.get_end() is None:
         # set default end time code
         LOGGER.warning("Set a default end value to paragraph (begin + 10s).")
-        self._paragraphs[-1].set_end(self._paragraphs[-1].get_begin().to_seconds() + 10.0)
+        paragraph.set_end(paragraph.get_begin().to_seconds() + 10)
 
   def __str__(self) -> str:
     return "\n".join(p.to_string(id + 1) for id, p in enumerate(self._paragraphs))
